@@ -124,3 +124,51 @@ def reader(ctx, n, project=None, cases=None, label='reader'):
         ctx.case(('reader', c[0], tuple(c[1][:200]), tuple(c[2]), len(c[3])), nontrivial=len(c[1]) > 0, sample=dict(layer='reader', form=c[0], n_units=len(c[1]), schedule=c[2][:6], ops=c[3][:6], outcome=i[0].rsplit('| ', 1)[-1] if i else None))
     base.compare(ctx, label, cases, impl, model, project=project, describe=lambda c: dict(form=c[0], data=c[1][:400], sizes=c[2], ops=c[3][:50]))
     return cases, impl, model
+
+# ---------------------------------------------------------------------------------------------------------------
+import itertools
+from tools import spec11
+RES_ALPHA = list("0123456789+-_.:eExbonyYNtTfFlLuUsSaAiI~<= \tZ\n!&*OrR")
+RES_SEEDS = ['yes','No','TRUE','off','1.5','-1_0.5e+10','.5','1:30:00.5','+.inf','.NaN','0b1_01','0o7','017','0','-12_3','0xFf_','190:20:30','<<','~','null','','2001-12-14',
+             '2001-12-14t21:59:43.10-05:00','2001-12-14 21:59:43.10 -5','2001-1-1 1:00:00Z','=','!','&','*','0x_','0b_','-0x_','1e5','1.e+5','1_0:5_9','-.inf','2001-12-14T21:59:43Z','2001-12-14 21:59:43 +5:30','2001-13-01','2001-02-30','2001-01-01 25:00:00','2001-01-01 1:00:00+25','2001-01-01 00:61:00','2001-00-01']
+def resolve_strings(ctx, maxlen, n_random, n_mut):
+    rng = ctx.rng
+    strings = ['']
+    small = list("01+-_.:ex~n<=yT ")
+    for n in range(1, maxlen + 1):
+        alpha = RES_ALPHA if n <= 2 else small if n <= 4 else list("01-_.:e")
+        strings += [''.join(t) for t in itertools.product(alpha, repeat=n)]
+    for _ in range(n_random):
+        strings.append(''.join(rng.choice(RES_ALPHA) for _ in range(rng.choice([4, 5, 6, 8, 10, 19, 25]))))
+    strings += spec11.all_keywords() + spec11.members(rng, max(50, n_mut))
+    for s0 in RES_SEEDS + spec11.all_keywords():
+        strings.append(s0)
+        for _ in range(n_mut):
+            t = list(s0)
+            for _ in range(rng.choice([1, 1, 2, 3])):
+                if t and rng.random() < 0.4: del t[rng.randrange(len(t))]
+                else: t.insert(rng.randrange(len(t) + 1), rng.choice(RES_ALPHA))
+            strings.append(''.join(t))
+    return strings
+
+def resolve(ctx, strings, label='resolve'):
+    """Coq matcher (regenerated regexes) vs live re objects; returns per-string (impl_obs, model_bits)."""
+    if not ctx.models(['rx']): return None
+    names = [r['tag'] for r in ctx.gen_meta.get('resolvers', [])]
+    impl = vlib.run_impl('resolve', strings)
+    model = vlib.run_model_cases('rx', [' '.join(str(ord(c)) for c in s) for s in strings])
+    n_bad = 0
+    for s, i, m in zip(strings, impl, model):
+        ctx.corr_count(label)
+        if not isinstance(i, list) or len(i) < 5 or not m or m[0].startswith('MODEL-DIED'):
+            ctx.disagreement(label, dict(text=s), dict(impl=str(i)[:200], model=str(m)[:200])); continue
+        bits, ts, np, tag, qtag = i
+        mb, mts, mnp = (m[0].split(' ') + ['', ''])[:3]
+        mbits = {t: mb[k] for k, t in enumerate(names)}
+        matched = [t for t in names if mbits[t] == '1']
+        ctx.count('resolve_' + (matched[0].rsplit(':', 1)[1] if matched else 'str'))
+        ctx.case(('resolve', s), nontrivial=bool(matched) or len(s) > 0, sample=dict(layer='resolve', text=s, model_tag=(matched[0] if matched else spec11.STR), impl_tag=tag))
+        ok = (set(bits) == set(names) and all(bits[t] == mbits[t] for t in names) and ts == mts and np == mnp and mb[len(names):].strip('0') == '')
+        if not ok:
+            ctx.disagreement(label, dict(text=s), dict(impl=dict(bits=bits, ts=ts, np=np), model=dict(bits=mbits, ts=mts, np=mnp)))
+    return impl, model
